@@ -367,5 +367,7 @@ LSP_FIX_PROGRAMS = _json.load(open(os.path.join(os.path.dirname(os.path.abspath(
     'fun p(): Int {\n  let v = foo(1,\n    2)\n  v\n}\nfun foo(a: Int, b: Int): Int { a }\np()\n',
     'fun q(): String {\n  let s = "\U0001F600\n  \u4e16"\n  s\n}\nq()\n',
     'fun r(): Int {\n  return (1 +\n    2)\n}\nr()\n',
+    'fun rb(x: Bool, y: Bool): Bool {\n  let a = x || y ||\n    x\n  let b = (x && y) &&\n      y && x\n  a || b || a\n}\nrb(True, False)\n',
+    'fun rb2(is_friend: Bool, is_morning: Bool): Bool {\n  let s = "\U0001F600"\n  is_friend || is_morning || is_friend\n}\nrb2(True, False)\n',
 ]
 LSP_FIX_BOUND = ("%d programs (the check --fix corpus plus multi-line and multi-byte values in every position a lint builds a fix from): the quick-fix edits the language server offers, applied as LSP defines ranges, must give the text `check --fix --stdout` gives, and every range must lie inside the document" % len(LSP_FIX_PROGRAMS))
